@@ -43,9 +43,9 @@ def problems():
     a = 0.125
     out["rotdamp"] = (2, 1, alphabets.tensor(2, 1, [(0, [1], -a), (0, [2], -1.0), (1, [1], 1.0), (1, [2], -a)]), [[1.0, 0.5]],
                       lambda t: [math.exp(-a * t) * (math.cos(t) - 0.5 * math.sin(t)), math.exp(-a * t) * (math.sin(t) + 0.5 * math.cos(t))], 1.0)
-    # the same rotation with time rescaled by 256 (a power of 4: the rescaling is exact in binary arithmetic): |u'| = 256 |u|, so any
+    # the same rotation with time rescaled by 4096 (a power of 4: the rescaling is exact in binary arithmetic): |u'| = 4096 |u|, so any
     # confusion between the state and its derivatives in the tolerance reference, or a step-size rule tied to O(1) time scales, shows
-    lamf = 256.0
+    lamf = 4096.0
     out["rotdamp_fast"] = (2, 1, alphabets.tensor(2, 1, [(0, [1], -a * lamf), (0, [2], -lamf), (1, [1], lamf), (1, [2], -a * lamf)]), [[1.0, 0.5]],
                            lambda t: [math.exp(-a * lamf * t) * (math.cos(lamf * t) - 0.5 * math.sin(lamf * t)), math.exp(-a * lamf * t) * (math.sin(lamf * t) + 0.5 * math.cos(lamf * t))], 1.0 / lamf)
     out["harmonic2"] = (1, 2, alphabets.tensor(1, 2, [(0, [1], -1.0)]), [[0.5], [1.0]], lambda t: [0.5 * math.cos(t) + math.sin(t)], 1.0)
